@@ -1,5 +1,5 @@
 (* Model/PdkSelect.v — device selection and parameter translation of the four PDK walkers, branch by branch
-   (repaired code: fixes C15-1..6).  Every `raise` the code contains is an explicit error value; every exception
+   (repaired code: fixes C15-1..8).  Every `raise` the code contains is an explicit error value; every exception
    that would ESCAPE from an internal lookup (KeyError of a default table, StopIteration, UnboundLocalError,
    TypeError of a parameter-class mismatch or of arithmetic on a non-number) is the distinct value EEscape,
    shown unreachable by the theorems of Props/C15.v.
@@ -198,9 +198,13 @@ Definition asap7_call (prm : pparams) : sel callspec :=
                    ("tp", PStr (pm_tp prm)); ("family", PStr (pm_fam prm));
                    ("model", match pm_model prm with Some m => PStr m | None => PNone end)].
 
-(* SamplePdkMosParams.__post_init__ : non-positive sizes are a ValueError; comparing a Literal is a TypeError *)
+(* SamplePdkMosParams.__post_init__ : non-positive numeric sizes are a ValueError; a Literal is not compared (fix C15-7) *)
 Definition positive (v : pv) : sel unit :=
-  match v with PNum n d => if (0 <? n) && (0 <? d) then SOk tt else SErr EBadParam | _ => SErr EEscape end.
+  match v with
+  | PNum n d => if (0 <? n) && (0 <? d) then SOk tt else SErr EBadParam
+  | PLit _ => SOk tt
+  | _ => SErr EEscape
+  end.
 
 Definition sample_call (prm : pparams) : sel callspec :=
   e <~ of_opt (find (fun e => strs_eqb (fst e) [if String.eqb (pm_tp prm) "MosType.PMOS" then "MosType.PMOS" else "MosType.NMOS"])
